@@ -271,12 +271,29 @@ fn gen_weights(r: &mut Rng, n: usize, zeros: bool) -> (&'static str, Vec<i64>) {
     }
 }
 
+/// The stream of strictly positive weights far below f64::EPSILON makes the
+/// balance clause fail (docs/C11.md, finding 1).  It is generated once the
+/// class `mj-tiny-weights` is an open entry of known_findings.json (or when
+/// VERIF_C11_TINY=1), so that the finding is reported, not a violation.
+fn tiny_enabled() -> bool {
+    if std::env::var("VERIF_C11_TINY").map_or(false, |v| v == "1") {
+        return true;
+    }
+    let root = std::env::current_exe().ok().and_then(|p| p.ancestors().nth(4).map(|r| r.to_path_buf()));
+    match root.and_then(|r| std::fs::read_to_string(r.join("known_findings.json")).ok()) {
+        Some(t) => t.contains("\"mj-tiny-weights\"") && t.contains("\"open\""),
+        None => false,
+    }
+}
+
 struct Case {
     family: String,
     wfamily: String,
     d: usize,
     pts: Vec<Vec<f64>>,
     ws: Vec<i64>,
+    /// weights are ws * 2^wexp (exact in f64)
+    wexp: i32,
     k: usize,
     max_iter: usize,
     pool: usize,
@@ -286,7 +303,9 @@ struct Case {
 fn gen_case(r: &mut Rng, tier: &str) -> Case {
     let big = tier == "thorough";
     let d = if r.chance(1, 2) { 2 } else { 3 };
+    let tiny = tiny_enabled();
     let stream = match r.below(100) {
+        0..=3 if tiny => "tiny",
         0..=77 => "main",
         78..=87 => "zeros",
         88..=94 => "more_parts",
@@ -299,7 +318,9 @@ fn gen_case(r: &mut Rng, tier: &str) -> Case {
         28..=37 => r.range(21, if big { 90 } else { 48 }) as usize,
         _ => r.range(49, if big { 260 } else { 100 }) as usize,
     };
-    let n = if stream == "main" { n.max(1) } else { n };
+    let n = if stream == "main" || stream == "tiny" { n.max(1) } else { n };
+    // exact power-of-two scaling of the weights: harmless for the algorithm except far below f64::EPSILON
+    let wexp = if stream == "tiny" { -70 } else { *r.pick(&[0, 0, 0, 0, 0, 0, 10, -10, -30, 3]) };
     let (pf, pts) = gen_points(r, n, d);
     let (wf, ws) = gen_weights(r, n, stream == "zeros");
     let mut k = match r.below(8) {
@@ -331,6 +352,7 @@ fn gen_case(r: &mut Rng, tier: &str) -> Case {
         d,
         pts,
         ws,
+        wexp,
         k,
         max_iter,
         pool,
@@ -344,7 +366,7 @@ type PartRes = Guarded<Result<Vec<usize>, coupe::Error>>;
 
 fn run_impl<const D: usize>(c: &Case, pool: usize) -> PartRes {
     let points: Vec<PointND<D>> = c.pts.iter().map(|p| PointND::<D>::from_iterator(p.iter().cloned())).collect();
-    let weights: Vec<f64> = c.ws.iter().map(|w| *w as f64).collect();
+    let weights: Vec<f64> = c.ws.iter().map(|w| *w as f64 * 2f64.powi(c.wexp)).collect();
     let (k, m) = (c.k, c.max_iter);
     guarded(pool, Duration::from_secs(20), move || {
         let mut p = vec![usize::MAX; points.len()];
@@ -357,14 +379,52 @@ fn run_impl<const D: usize>(c: &Case, pool: usize) -> PartRes {
 
 fn sorts_of<const D: usize>(c: &Case, tree: &Node) -> Vec<(usize, Vec<usize>, Vec<usize>)> {
     let points: Vec<PointND<D>> = c.pts.iter().map(|p| PointND::<D>::from_iterator(p.iter().cloned())).collect();
-    let weights: Vec<f64> = c.ws.iter().map(|w| *w as f64).collect();
+    let weights: Vec<f64> = c.ws.iter().map(|w| *w as f64 * 2f64.powi(c.wexp)).collect();
     let mut perm: Vec<usize> = (0..points.len()).collect();
     let mut out = Vec::new();
     replay(tree, 0, &mut perm, &points, &weights, &mut out);
     out
 }
 
+/// Fixed experiments behind the findings reported in docs/C11.md (`c11 --probe`).
+fn probe() {
+    // (1) part_count not representable in f32
+    for (k, m) in [(16_777_216usize, 1usize), (16_777_217, 1), (16_777_219, 1)] {
+        let r = guarded(0, Duration::from_secs(60), move || {
+            let v = coupe::verif_multi_jagged::partition_scheme(k, m);
+            (v[0], v.len())
+        });
+        match r {
+            Guarded::Done((ns, len)) => println!("partition_scheme({k}, {m}): num_splits = {ns}, flattened length {len}"),
+            Guarded::Panic(msg) => println!("partition_scheme({k}, {m}): PANIC {msg}"),
+            Guarded::Hang => println!("partition_scheme({k}, {m}): no answer in 60 s"),
+        }
+    }
+    // (2) strictly positive weights far below f64::EPSILON
+    for scale in [1.0f64, 1e-12, 1e-15, 1e-16, 1e-17, 1e-20] {
+        let n = 8usize;
+        let points: Vec<PointND<2>> = (0..n).map(|i| PointND::<2>::new(i as f64, (i % 3) as f64)).collect();
+        let weights: Vec<f64> = vec![scale; n];
+        let mut p = vec![usize::MAX; n];
+        coupe::MultiJagged { part_count: 2, max_iter: 1 }
+            .partition(&mut p, (&points[..], &weights[..]))
+            .unwrap();
+        let l0: f64 = (0..n).filter(|i| p[*i] == p[0]).map(|i| weights[i]).sum();
+        let tot: f64 = weights.iter().sum();
+        println!(
+            "8 points, weight {scale:e} each, 2 parts, max_iter 1: ids {:?}; |load - total/2| / max weight = {}  (bound: < 2)",
+            p,
+            (l0 - tot / 2.0).abs() / scale
+        );
+    }
+}
+
 fn main() {
+    if std::env::args().any(|x| x == "--probe") {
+        quiet_panics();
+        probe();
+        return;
+    }
     let a = parse_args();
     quiet_panics();
     let mut rng = Rng::new(a.seed);
@@ -441,10 +501,11 @@ fn main() {
             .map(|(ax, i, o)| format!("({}, {}, {})", ax, coq_natlist(i.iter().cloned()), coq_natlist(o.iter().cloned())))
             .collect();
         let coq = format!(
-            "mk11 {}%nat [{}]%N {} {}%N {}%nat {}%nat {}%N {}%N [{}]%nat {} {}",
+            "mk11 {}%nat [{}]%N {} {} {}%N {}%nat {}%nat {}%N {}%N [{}]%nat {} {}",
             c.d,
             pts_coq.join(";"),
             coq_zlist(c.ws.iter().map(|x| *x as i128)),
+            format!("({})%Z", c.wexp),
             c.k,
             c.max_iter,
             c.blk,
@@ -459,12 +520,22 @@ fn main() {
             .iter()
             .map(|p| format!("[{}]", p.iter().map(|x| format!("{:?}", x)).collect::<Vec<_>>().join(",")))
             .collect();
+        // known-finding class, from the input alone: total weight below 2^-40 (the absolute
+        // epsilon 2^-52 of approx::Ulps::default() is then comparable to the weights themselves)
+        let total: f64 = c.ws.iter().map(|w| *w as f64 * 2f64.powi(c.wexp)).sum();
+        let kf = if c.k >= 1 && c.max_iter >= 1 && !c.ws.is_empty() && c.ws.iter().all(|w| *w > 0) && total < 2f64.powi(-40) {
+            "\"kf\":\"mj-tiny-weights\","
+        } else {
+            ""
+        };
         let json = format!(
-            "{{\"weight_family\":\"{}\",\"dim\":{},\"points\":[{}],\"weights\":{},\"part_count\":{},\"max_iter\":{},\"pool\":{},\"scheme_leaves\":{},\"sort_replays\":{},\"impl\":{},\"impl_one_thread\":{}}}",
+            "{{{}\"weight_family\":\"{}\",\"dim\":{},\"points\":[{}],\"weights\":{},\"weight_exponent\":{},\"part_count\":{},\"max_iter\":{},\"pool\":{},\"scheme_leaves\":{},\"sort_replays\":{},\"impl\":{},\"impl_one_thread\":{}}}",
+            kf,
             c.wfamily,
             c.d,
             pts_json.join(","),
             json_i64s(&c.ws),
+            c.wexp,
             c.k,
             c.max_iter,
             c.pool,
@@ -474,7 +545,8 @@ fn main() {
             json_impl_partition(&seq)
         );
         let key = format!(
-            "{}|{:?}|{:?}|{}|{}|{}",
+            "{}|{}|{:?}|{:?}|{}|{}|{}",
+            c.wexp,
             c.d,
             c.pts.iter().map(|p| p.iter().map(|x| x.to_bits()).collect::<Vec<_>>()).collect::<Vec<_>>(),
             c.ws,
